@@ -66,7 +66,7 @@ PROPERTY = 'C08'
 # --------------------------------------------------------------------------------
 
 ROOT = '/tmp/verif_c08_fs'
-DIRS = {'Music': 'Music', 'Private': 'Private', 'Live': 'Music/Rock/Live'}
+DIRS = {'Music': 'Music', 'Private': 'Private', 'Rock': 'Music/Rock', 'Live': 'Music/Rock/Live'}   # Music > Rock > Live
 DISK = ['Music/Rock/Song One.mp3', 'Music/top song.flac', 'Music/Rock/Live/Song Live.mp3',
         'Private/Demo Song.mp3', 'Unshared/Lost Song.mp3']
 USERS = ['alice', 'bob', 'carol']
@@ -1154,8 +1154,27 @@ def _configs(tier):
                 [([['Music', a], ['Live', b]], [['remove', 'Live']]) for a in MODES for b in MODES] + \
                 [([['Music', a], ['Private', 'users']], [['add', 'Live', b], ['remove', 'Private']]) for a in MODES for b in MODES if a != b]
         three = [[['Music', a], ['Private', b], ['Live', d]] for a in MODES for b in MODES for d in MODES]
+    # three levels Music > Music/Rock > Music/Rock/Live with independently chosen modes: scanned, and the histories
+    # innermost removed / middle removed / innermost added / middle added after the scan (no rescan)
+    if tier == 'quick':
+        combos = [('everyone', 'friends', 'users'), ('users', 'everyone', 'friends')]
+        deep = [[['Music', a], ['Rock', b], ['Live', d]] for a, b, d in combos]
+        deep_stale = [([['Music', 'everyone'], ['Rock', 'friends'], ['Live', 'users']], [['remove', 'Live']]),
+                      ([['Music', 'friends'], ['Rock', 'users'], ['Live', 'everyone']], [['remove', 'Live']]),
+                      ([['Music', 'everyone'], ['Rock', 'friends'], ['Live', 'users']], [['remove', 'Rock']]),
+                      ([['Music', 'everyone'], ['Rock', 'users']], [['add', 'Live', 'friends']]),
+                      ([['Music', 'everyone'], ['Live', 'users']], [['add', 'Rock', 'friends']])]
+    else:
+        combos = [(a, b, d) for a in MODES for b in MODES for d in MODES]
+        deep = [[['Music', a], ['Rock', b], ['Live', d]] for a, b, d in combos]
+        deep_stale = [([['Music', a], ['Rock', b], ['Live', d]], [['remove', 'Live']]) for a, b, d in combos] + \
+                     [([['Music', a], ['Rock', b], ['Live', d]], [['remove', 'Rock']]) for a, b, d in combos] + \
+                     [([['Music', a], ['Rock', b]], [['add', 'Live', d]]) for a, b, d in combos] + \
+                     [([['Music', a], ['Live', d]], [['add', 'Rock', b]]) for a, b, d in combos] + \
+                     [([['Music', a], ['Rock', b], ['Live', d]], [['remove', 'Live'], ['remove', 'Rock']]) for a, b, d in combos[::4]]
+    deep_shapes = [(cfg, []) for cfg in deep] + deep_stale
     shapes = [(cfg, []) for cfg in one + two + nested + three] + stale
-    return one, two, nested, stale, shapes
+    return one, two, nested, stale, shapes, deep_shapes
 
 
 def _final_modes(cfg, ops):
@@ -1170,8 +1189,9 @@ def _final_modes(cfg, ops):
 
 def jobs(tier):
     q = tier == 'quick'
-    one, two, nested, stale, shapes = _configs(tier)
+    one, two, nested, stale, shapes, deep_shapes = _configs(tier)
     users = [0] if q else [0, 1, 2]
+    is_deep = lambda cfg, ops: 'Rock' in [d for d, _ in cfg] or any(op[1] == 'Rock' for op in ops)   # noqa: E731
     out = []
 
     def job(harness, fn, cfg, ops, requires, **params):
